@@ -125,6 +125,13 @@ def _parse_tlc_output(res, text):
             res.coverage[m.group(1)] = (int(m.group(3)), int(m.group(4)))
     if res.violation is not None:
         res.ok = False
+    elif "Simulation" in text and "Finished in" in text and not res.ok:
+        # -simulate ends without the "No error has been found" line
+        res.ok = True
+        m = re.search(r"The number of states generated: (\d+)", text)
+        if m:
+            res.generated = int(m.group(1))
+            res.distinct = res.distinct or int(m.group(1))
 
 
 def tlc(spec_dir, module, cfg=None, workers=4, env=None, timeout=900, simulate=None, depth=None,
